@@ -417,9 +417,10 @@ type verifTracker struct {
 	mode        string // ok | hang | hang-stopped
 	log         []string
 	inflight    int
-	hung        int // requests currently parked because the tracker is told not to answer
-	hungStopped int // … of which stopped announces
-	reqs        int // requests ever received
+	hung        int      // requests currently parked because the tracker is told not to answer
+	hungStopped int      // … of which stopped announces
+	reqs        int      // requests ever received
+	rlog        []string // announces received from torrents opened by reload ops
 	release     chan struct{}
 	w           *VerifWorld
 }
@@ -439,7 +440,10 @@ func (tr *verifTracker) ServeHTTP(rw http.ResponseWriter, req *http.Request) {
 	case strings.HasPrefix(q.Get("peer_id"), publicPeerIDPrefix):
 		pid = "pub"
 	}
-	if q.Get("peer_id") != string(tr.w.t.peerID[:]) {
+	tr.w.reloadMu.Lock()
+	reloaded := tr.w.reloadIDs[q.Get("peer_id")]
+	tr.w.reloadMu.Unlock()
+	if !reloaded && q.Get("peer_id") != string(tr.w.t.peerID[:]) {
 		pid += "!mismatch"
 	}
 	ua := "pub"
@@ -455,6 +459,13 @@ func (tr *verifTracker) ServeHTTP(rw http.ResponseWriter, req *http.Request) {
 	pv := "ok"
 	if q.Get("port") != fmt.Sprint(tr.w.sess.config.PortBegin) {
 		pv = "bad"
+	}
+	if reloaded {
+		// an announce of the torrent as reloaded from the resume database by the reload op: kept apart
+		tr.rlog = append(tr.rlog, fmt.Sprintf("%d:%s:%s:%s:%s", tr.idx, ev, pid, ua, ih))
+		tr.mu.Unlock()
+		rw.Write([]byte("d8:intervali1800e5:peers0:e")) // nolint
+		return
 	}
 	tr.log = append(tr.log, fmt.Sprintf("%d:%s:%s:%s:%s:L%s:P%s", tr.idx, ev, pid, ua, ih, q.Get("left"), pv))
 	tr.reqs++
@@ -489,18 +500,20 @@ func (tr *verifTracker) ServeHTTP(rw http.ResponseWriter, req *http.Request) {
 
 // VerifWorld is one scripted universe: a session with one torrent and scripted peers.
 type VerifWorld struct {
-	dir     string
-	sess    *Session
-	tor     *Torrent
-	t       *torrent
-	sto     *verifStorage
-	peers   map[int]*verifPeer
-	content []byte // ground truth: concatenation of all files (padding = zeros)
-	pl      int
-	flens   []int
-	fpads   []bool
-	nPieces int
-	hashes  [][]byte
+	reloadMu  sync.Mutex
+	reloadIDs map[string]bool // peer ids of the torrents opened by reload ops (their announces are kept apart)
+	dir       string
+	sess      *Session
+	tor       *Torrent
+	t         *torrent
+	sto       *verifStorage
+	peers     map[int]*verifPeer
+	content   []byte // ground truth: concatenation of all files (padding = zeros)
+	pl        int
+	flens     []int
+	fpads     []bool
+	nPieces   int
+	hashes    [][]byte
 
 	infoBytes    []byte
 	torrentBytes []byte
@@ -1313,6 +1326,9 @@ func (w *VerifWorld) Op(op string) string {
 	case "crashcheck":
 		o := w.observeAfterSettle()
 		return "crash=" + w.crashCheck(m) + " " + o
+	case "reload":
+		o := w.observeAfterSettle()
+		return "reload=" + w.reloadCheck() + " " + o
 	case "magnet":
 		_, err := w.tor.Magnet()
 		v := "ok"
@@ -1820,6 +1836,77 @@ func (w *VerifWorld) crashCheck(m map[string]string) string {
 		return "bad:" + strings.Join(bad, "+")
 	}
 	return "ok"
+}
+
+// reloadCheck opens a second session on a copy of the resume database (and of the storage), starts the torrent it
+// loads and returns the announces the stub trackers receive from it: the identity a torrent announces with must
+// survive a restart of the client.
+func (w *VerifWorld) reloadCheck() string {
+	if len(w.trackers) == 0 {
+		return "-"
+	}
+	dir, err := os.MkdirTemp("", "verifreload")
+	if err != nil {
+		return "error:tmp"
+	}
+	defer os.RemoveAll(dir)
+	dbPath := filepath.Join(dir, "session.db")
+	if err = w.sess.db.View(func(tx *bbolt.Tx) error { return tx.CopyFile(dbPath, 0o600) }); err != nil {
+		return "error:dbcopy"
+	}
+	sto := w.sto.clone()
+	sto.truth = w.sto.truth
+	cfg := w.sess.config
+	cfg.Database = dbPath
+	cfg.CustomStorage = sto
+	cfg.ResumeOnStartup = false
+	s2, err := NewSession(cfg)
+	if err != nil {
+		return "error:reopen:" + verifErrClass(err)
+	}
+	t2 := s2.GetTorrent(w.tor.ID())
+	if t2 == nil {
+		s2.Close()
+		return "error:torrent-missing"
+	}
+	w.reloadMu.Lock()
+	if w.reloadIDs == nil {
+		w.reloadIDs = map[string]bool{}
+	}
+	w.reloadIDs[string(t2.torrent.peerID[:])] = true
+	w.reloadMu.Unlock()
+	for _, tr := range w.trackers {
+		tr.mu.Lock()
+		tr.rlog = nil
+		tr.mu.Unlock()
+	}
+	_ = t2.Start()
+	deadline := time.Now().Add(2 * time.Second)
+	for time.Now().Before(deadline) {
+		n := 0
+		for _, tr := range w.trackers {
+			tr.mu.Lock()
+			n += len(tr.rlog)
+			tr.mu.Unlock()
+		}
+		if n >= len(w.trackers) {
+			break
+		}
+		time.Sleep(time.Millisecond)
+	}
+	s2.Close()
+	var out []string
+	for _, tr := range w.trackers {
+		tr.mu.Lock()
+		out = append(out, tr.rlog...)
+		tr.rlog = nil
+		tr.mu.Unlock()
+	}
+	sort.Strings(out)
+	if len(out) == 0 {
+		return "-"
+	}
+	return strings.Join(out, ",")
 }
 
 // pieceOnDisk: the non-padding bytes of piece i in sto are the true bytes.
